@@ -170,8 +170,11 @@ func (c *rankCache) Add(id uint64, n uint64) {
 	defer c.mu.Unlock()
 	// Ignore if the column count is below the threshold,
 	// unless the count is 0, which is effectively used
-	// to clear the cache value.
+	// to clear the cache value. A count recorded earlier for
+	// the row is out of date now, so it must not stay behind.
 	if n < c.thresholdValue && n > 0 {
+		delete(c.entries, id)
+		c.invalidate()
 		return
 	}
 
@@ -186,8 +189,10 @@ func (c *rankCache) BulkAdd(id uint64, n uint64) {
 	defer c.mu.Unlock()
 	// Ignore if the column count is below the threshold,
 	// unless the count is 0, which is effectively used
-	// to clear the cache value.
+	// to clear the cache value. A count recorded earlier for
+	// the row is out of date now, so it must not stay behind.
 	if n < c.thresholdValue && n > 0 {
+		delete(c.entries, id)
 		return
 	}
 
